@@ -124,15 +124,17 @@ func (w *recWriter) Write(p []byte) (int, error) {
 // chunkFS is an fs.FS whose files hand out at most `chunk` bytes per Read call (a legal io.Reader, like
 // compressed archives or network file systems) and support Stat.
 type chunkFS struct {
-	files map[string]string
-	chunk int
+	files       map[string]string
+	chunk       int
+	eofWithData bool // the last bytes of a file are delivered together with io.EOF (legal for an io.Reader)
 }
 
 type chunkFile struct {
-	name  string
-	data  string
-	off   int
-	chunk int
+	name        string
+	data        string
+	off         int
+	chunk       int
+	eofWithData bool
 }
 
 type chunkInfo struct {
@@ -159,6 +161,9 @@ func (f *chunkFile) Read(p []byte) (int, error) {
 	}
 	n = copy(p[:n], f.data[f.off:])
 	f.off += n
+	if f.eofWithData && f.off >= len(f.data) {
+		return n, io.EOF
+	}
 	return n, nil
 }
 
@@ -167,5 +172,5 @@ func (s *chunkFS) Open(name string) (fs.File, error) {
 	if !ok {
 		return nil, &fs.PathError{Op: "open", Path: name, Err: fs.ErrNotExist}
 	}
-	return &chunkFile{name: name, data: txt, chunk: s.chunk}, nil
+	return &chunkFile{name: name, data: txt, chunk: s.chunk, eofWithData: s.eofWithData}, nil
 }
